@@ -19,6 +19,7 @@ from elementpath.sequence_types import is_sequence_type, match_sequence_type
 from elementpath.xpath_tokens import XPathToken, ProxyToken, XPathFunction, \
     XPathMap, XPathArray
 from elementpath.sequences import xlist
+from elementpath.namespaces import XPATH_FUNCTIONS_NAMESPACE
 
 from .xpath31_parser import XPath31Parser
 
@@ -238,11 +239,16 @@ def led__arrow_operator(self: XPathToken, left: XPathToken) -> XPathToken:
     if next_token.symbol == '$':
         self[:] = left, self.parser.expression(80)
     elif isinstance(next_token, ProxyToken):
-        self.parser.parse_arguments = False
+        # A name shared by functions of several namespaces (fn:reverse / array:reverse):
+        # resolve it as ProxyToken.nud() does for a static call, the proxy itself is still
+        # parser.next_token here and cannot see the following '('.
+        lookup_name = f'{{{next_token.namespace or XPATH_FUNCTIONS_NAMESPACE}}}{next_token.value}'
         try:
-            self[:] = left, next_token.nud()
-        finally:
-            self.parser.parse_arguments = True
+            func = self.parser.symbol_table[lookup_name](self.parser)
+        except KeyError:
+            msg = f'unknown function {next_token.value!r}'
+            raise next_token.error('XPST0017', msg) from None
+        self[:] = left, func
         self.parser.advance()
     elif isinstance(next_token, XPathFunction):
         self[:] = left, next_token
